@@ -388,7 +388,7 @@ func ruleDBCodecColumn(c *Ctx, prefix, col string, w ssa.Value, wc string, targe
 			switch {
 			case p == "net.ParseMAC":
 				why = "net.ParseMAC only accepts 6, 8 and 20 byte addresses, but the writer persists HardwareAddr.String() of a chaddr of any length (0..16): a client with another hlen makes the next start-up fail"
-			case strings.HasSuffix(p, "/plugins/range.parseHWAddr"):
+			case strings.HasSuffix(p, "/plugins/range."+anRaw("parseHWAddr")):
 				okp = parserFallsBackToColonHex(c, p)
 				if !okp {
 					why = "parseHWAddr no longer contains the colon-hex fallback for lengths ParseMAC refuses"
@@ -480,7 +480,7 @@ func ruleRangeHandler(c *Ctx, prefix string, want map[string]bool) {
 				return "allocate"
 			}
 			if f := x.Call.StaticCallee(); f != nil {
-				if f.Name() == "saveIPAddress" {
+				if isAnchor(f, "saveIPAddress") {
 					delete(st.seen, "dirty")
 					return "save"
 				}
@@ -514,7 +514,7 @@ func ruleRangeHandler(c *Ctx, prefix string, want map[string]bool) {
 					addb("RANGE.LOOKUP-FIRST", fmt.Sprintf("a new address is allocated at %s on a path where the client's existing binding was not looked up and found absent (lookup-found=%s)", c.P.InstrPos(in), tri(v)))
 				}
 			}
-			if f := x.Call.StaticCallee(); f != nil && f.Name() == "saveIPAddress" {
+			if f := x.Call.StaticCallee(); f != nil && isAnchor(f, "saveIPAddress") {
 				counts["save"]++
 				// persisted under the same key form as the in-memory map
 				if a := ex.Canon(st, x.Call.Args[1]).S; a != "$1.ClientHWAddr" {
@@ -651,7 +651,7 @@ func ruleRangeHandler(c *Ctx, prefix string, want map[string]bool) {
 
 // ruleDBLoad: loadRecords returns all rows or an error; keys agree with the handler's.
 func ruleDBLoad(c *Ctx, prefix string) {
-	fn := c.P.Func("plugins/range", "", "loadRecords")
+	fn := c.P.Anchor("loadRecords")
 	if fn == nil {
 		c.R.Fatalf("ANCHOR-UNRESOLVED: rangeplugin.loadRecords")
 		return
@@ -667,7 +667,7 @@ func ruleDBLoad(c *Ctx, prefix string) {
 		}
 		nIns++
 		k := ex.Canon(st, mu.Key).S
-		if !regexp.MustCompile(`^\(net\.HardwareAddr\)\.String\(.*(parseHWAddr|ParseMAC)(@(?:[\w$]+·)?t\d+)?\(.*\)#0\)$`).MatchString(k) {
+		if !regexp.MustCompile(`^\(net\.HardwareAddr\)\.String\(.*(` + an("parseHWAddr") + `|ParseMAC)(@(?:[\w$]+·)?t\d+)?\(.*\)#0\)$`).MatchString(k) {
 			keyBad = append(keyBad, "restored records are keyed by "+shortName(stripAt(k))+", not by HardwareAddr.String() of the parsed address (the form the handler looks up)")
 		}
 		if _, ok := ex.Resolve(st, mu.Map).(*ssa.MakeMap); !ok {
